@@ -25,7 +25,7 @@ func init() {
 			"a receiver with a different mapping (other kind / accuracy / offset); mapping omitted and none supplied; each decoded by DecodeDDSketch, DecodeDDSketchWithExactSummaryStatistics and DecodeAndMergeWith into rotating store kinds, fresh and non-empty receivers. Oracle (block boundaries from the independent parser): cut strictly inside a block -> error, no panic; " +
 			"cut at a boundary -> success iff a mapping is available, with exactly the content of the complete blocks; undefined flag / mismatch / missing mapping -> error, no panic. Non-trivial = encoding with >=2 store blocks or >=3 block types; distinct = hash of E.",
 		Cases:     core.Scale(40000, 400000),
-		Mandatory: []string{"fault.cut_inside_block", "fault.cut_at_boundary", "fault.flag_substitution", "fault.mapping_mismatch", "fault.missing_mapping", "cut.after_flag", "cut.between_primitives", "cut.in_varint", "cut.in_varfloat", "cut.in_float64", "decoder.exact", "decoder.plain", "receiver.nonempty", "oracle.boundary_content_checks"},
+		Mandatory: []string{"fault.cut_inside_block", "fault.cut_at_boundary", "fault.flag_substitution", "fault.mapping_mismatch", "fault.missing_mapping", "cut.after_flag", "cut.between_primitives", "cut.in_varint", "cut.in_varfloat", "cut.in_float64", "decoder.exact", "decoder.plain", "receiver.nonempty", "oracle.boundary_content_checks", "source.arbitrary_weights", "cut.in_9_byte_varfloat"},
 		Assumptions: []string{
 			"block boundaries are those found by the independent parser on the complete encoding",
 			"a failed decode is not required to leave the receiver unchanged",
@@ -73,6 +73,23 @@ func runC08(c *core.Ctx) {
 	A := buildSource(c, r, "A", exact, m, spec, 40)
 	if A == nil {
 		return
+	}
+	// one case in eight carries arbitrary float weights (long varfloat encodings, up to 9 bytes): there the
+	// content oracle is switched off (weights are outside the exactness budget), the error/no-panic oracle stays
+	arbitrary := c.Index%8 == 5
+	if arbitrary {
+		for i := 0; i < r.Range(1, 12); i++ {
+			v := m.ClampIn(r.LogUniform(0.01, 100))
+			if len(A.mdl.Items) > 0 {
+				v = A.mdl.Items[r.Intn(len(A.mdl.Items))].V
+			}
+			w := []float64{0.1, 1.0 / 3, 0.7, 5.6, 1e-3, 123456.789}[r.Intn(6)] * (1 + r.Float())
+			A.s.I().AddWithCount(v, w)
+		}
+		if r.Bool() {
+			A.s.I().Reweight(0.3)
+		}
+		c.Count("source.arbitrary_weights", 1)
 	}
 	omit := r.P(0.3)
 	var e []byte
@@ -200,6 +217,9 @@ func runC08(c *core.Ctx) {
 					c.Failf("boundary_cut_rejected", "E[:%d] ends exactly between blocks (%d complete blocks) and a mapping is available, but decoding into %s returned %v", cut, nComplete, target, err)
 					return
 				}
+				if arbitrary {
+					break
+				}
 				c.Count("oracle.boundary_content_checks", 1)
 				mon.CheckSketchBinsOnly(c, "prefix_content", recv, md)
 				if c.Failed() {
@@ -210,6 +230,11 @@ func runC08(c *core.Ctx) {
 		} else {
 			c.Count("fault.cut_inside_block", 1)
 			if b := blockAt(cut); b != nil {
+				for _, f := range b.Fields {
+					if f.Kind == "varfloat" && f.End-f.Start == 9 && cut > f.Start && cut < f.End {
+						c.Count("cut.in_9_byte_varfloat", 1)
+					}
+				}
 				c.Count(fieldClass(b, cut), 1)
 				c.Count("cut.in_block."+b.Name(), 1)
 			}
